@@ -23,7 +23,7 @@ THEOREMS = [
     "date_roundtrip", "date_display_out_of_range", "civil_roundtrip",
     "int_roundtrip", "bool_roundtrip", "string_roundtrip",
     "blob_roundtrip_partial", "blob_roundtrip_unsound",
-    "interval_roundtrip_partial", "timestamp_roundtrip_partial", "interval_roundtrip_unsound", "timestamp_roundtrip_unsound", "timestamp_wholesec_roundtrip_unsound",
+    "interval_roundtrip_partial", "timestamp_roundtrip_partial", "interval_roundtrip_unsound", "timestamp_roundtrip_unsound", "timestamp_wholesec_roundtrip_unsound", "f64_nan_roundtrip",
 ]
 
 # reason tag computed by the model  ->  known-finding signature
